@@ -1,4 +1,5 @@
 import CattrsModel.Tagged.Lemmas
+import CattrsModel.Tagged.Reconfigure
 /-!
 # C13 — tagged unions: tag added going out, honoured coming in, member hooks untouched
 
@@ -281,6 +282,48 @@ theorem C13_members_untouched {T H : Type} [DecidableEq T] (s : Disp T H) (hco :
     | some h => rfl
     | none => simp [regGet, Disp.slow, firstMatch, ht]
 
+
+/-! ## re-configuration -/
+
+/-- **C13_reconfigure_last_wins.**  Configure the union (hooks `f`), let the converter be used for any types in any
+order (every dispatch cache is warm, in particular with `f` for the union and for everything built from it), configure
+the same union again (hooks `g`): for EVERY type the structure and the unstructure dispatchers now return what they
+return on a converter on which only the second configuration was ever made.  The last configuration wins; nothing of
+the first survives in the `lru_cache`, the direct table, the registry or the handler list. -/
+theorem C13_reconfigure_last_wins {T H : Type} [DecidableEq T] (c : CDisp T H) (U : T) (f g : H) (used : List T) (t : T) :
+    ((((c.registerUnionSt U f).useAll used).registerUnionSt U g).dispatch t).1 = ((c.registerUnionSt U g).dispatch t).1 ∧
+    ((((c.registerUnionUn U f).useAll used).registerUnionUn U g).dispatch t).1 = ((c.registerUnionUn U g).dispatch t).1 := by
+  constructor
+  · simp only [CDisp.registerUnionSt, CDisp.dispatch_empty, CDisp.useAll_base]
+    exact resolve_registerUnionSt_twice c.base U f g t
+  · simp only [CDisp.registerUnionUn, CDisp.dispatch_empty, CDisp.useAll_base]
+    exact resolve_registerUnionUn_twice c.base U f g t
+
+/-- … so whenever configuring once installs `g` for the union on this converter, configuring after earlier
+configurations and use installs `g` too; on the unstructure side that is unconditional (a union is no class, so
+singledispatch has nothing for it). -/
+theorem C13_reconfigure_installs {T H : Type} [DecidableEq T] (c : CDisp T H) (U : T) (f g : H) (used : List T) :
+    (((c.registerUnionSt U g).dispatch U).1 = g →
+      ((((c.registerUnionSt U f).useAll used).registerUnionSt U g).dispatch U).1 = g) ∧
+    (c.base.single U = Option.none →
+      ((((c.registerUnionUn U f).useAll used).registerUnionUn U g).dispatch U).1 = g) := by
+  constructor
+  · intro h; rw [(C13_reconfigure_last_wins c U f g used U).1, h]
+  · intro hs
+    rw [(C13_reconfigure_last_wins c U f g used U).2]
+    simp only [CDisp.registerUnionUn, CDisp.dispatch_empty]
+    exact resolve_registerUnionUn_self c.base U g hs
+
+/-- Two unions on one converter: configuring ANOTHER union (`U' ≠ U` as sets of members — sharing members or not)
+after any use leaves what both dispatchers return for `U`, and for every other type, as the cache-free resolution of
+the converter before that call. -/
+theorem C13_other_union_untouched {T H : Type} [DecidableEq T] (c : CDisp T H) (hco : c.base.DirectCoherent)
+    (U' : T) (g : H) (t : T) (ht : t ≠ U') :
+    ((c.registerUnionSt U' g).dispatch t).1 = c.base.resolve t ∧
+    ((c.registerUnionUn U' g).dispatch t).1 = c.base.resolve t := by
+  simp only [CDisp.registerUnionSt, CDisp.registerUnionUn, CDisp.dispatch_empty]
+  exact C13_members_untouched c.base hco U' g t ht
+
 /-! ## negative witness and non-vacuity -/
 section Examples
 
@@ -379,6 +422,23 @@ example : ((({ single := fun _ => Option.none, direct := [(1, "attrs-hook")],
 /-- non-vacuity of `C13_nondict_payload`: the string `"x_typey"` contains the tag name — raises; `"q"` goes to the default -/
 example : tagDecide (c13ExU (some 0) true) (.str "x_typey") = .err ∧ tagDecide (c13ExU (some 0) true) (.str "q") = .call 0 (.str "q") := by
   constructor <;> (rw [C13_nondict_payload _ _ (by intro kvs h; cases h)]; rfl)
+
+/-- a converter whose structure dispatcher knows the union registry only -/
+def c13ExC : CDisp Nat String :=
+  { base := { single := fun _ => Option.none, direct := [], handlers := [.unionRegistry], unionReg := [],
+              fallback := fun _ => "fallback" }, cache := [] }
+
+/-- non-vacuity of `C13_reconfigure_last_wins` / `C13_reconfigure_installs`: union `7` configured with "old", used,
+configured with "new": "new" is what the dispatcher returns -/
+example : ((((c13ExC.registerUnionSt 7 "old").useAll [7, 3, 7]).registerUnionSt 7 "new").dispatch 7).1 = "new" :=
+  (C13_reconfigure_installs c13ExC 7 "old" "new" [7, 3, 7]).1 (by decide)
+
+/-- **C13_stale_cache_witness** (negative witness; seeded change "clear the cache only when the union is new to the
+registry").  With that registration the hook of the FIRST configuration is still returned after the second. -/
+theorem C13_stale_cache_witness :
+    ((((c13ExC.registerUnionSt 7 "old").useAll [7]).registerUnionStLazy 7 "new").dispatch 7).1 = "old" ∧
+    ((((c13ExC.registerUnionSt 7 "old").useAll [7]).registerUnionSt 7 "new").dispatch 7).1 = "new" := by
+  constructor <;> decide
 
 end Examples
 
